@@ -178,3 +178,21 @@ SPECS['C17'] = dict(
     quick=dict(workers=16, cases=400, size=100, timeout=1500),
     thorough=dict(workers=16, cases=10000, size=100, timeout=7200),
 )
+
+SPECS['C02'] = dict(
+    kind='native', drivers=['p_c02.cpp'], shims=['sut_strm'], with_lib=True,
+    level='exploration',
+    technique='metamorphic set-algebra relation over echse\'s own streams of generated events with RRULE/RDATE/EXDATE/EXRULE and all duration classes (rapidcheck)',
+    level_text=('Generated events combine a base RRULE (or RDATEs only), RDATE lists, EXDATEs chosen from real occurrences, non-occurrences and instants before DTSTART, '
+                'an EXRULE, and durations from zero up to the gap minus one unit; the delivered stream must equal (RRULE stream U RDATE) minus (EXDATE U EXRULE stream) '
+                'by start, with the baseline streams taken from echse itself so that only the exception algebra is judged.'),
+    level_note='baselines (rule-only, rdate-only, exrule-only streams) come from the same library path; C01 judges them',
+    rule=('case = (DTSTART date or date-time, base rule among YEARLY..MINUTELY with INTERVAL 1..4 / WEEKLY;BYDAY / MONTHLY;BYMONTHDAY, duration class {none, 1 unit, gap/2, gap-1 unit} '
+          'as DURATION or DTEND, 0..6 RDATEs incl. duplicates of rule instances and instants before DTSTART, 0..8 EXDATEs: occurrence starts (incl. consecutive runs), an instant just after '
+          'an occurrence, one inside an occurrence\'s span, one before DTSTART; optional EXRULE = same FREQ with a multiple of the INTERVAL). 150 occurrences compared. '
+          'non-trivial = at least one exception equals an occurrence start and at least one occurrence survives; distinct = case text'),
+    assumptions=['durations reaching the next occurrence (overlapping instances) are outside the quantifier and not generated',
+                 'identical starts from RRULE and RDATE are one occurrence (set semantics)'],
+    quick=dict(workers=16, cases=400, size=100, timeout=1500),
+    thorough=dict(workers=16, cases=20000, size=100, timeout=7200),
+)
